@@ -12,8 +12,8 @@ CLAIMS = {
          "Decides: scoring constants and both bonus configurations equal the documented fzf values; bonus_for table and its arguments; previous-class carried on every iteration; u16 score additions saturating or bounded; gap steps; the cell-update recurrence (branching or branch-free); both char classifiers classify the raw character; no bonus data cached from a configuration that can be reassigned; fold lookup. Does not decide score/alignment coherence for all inputs.", "§3 C03"),
  "C04": ("other", "source-set + const relation on early exits, prefix-bonus additivity, loop path rule on the prefix-bonus decay",
          "Decides: every 'cannot get better' early exit compares against a value that dominates every bonus_for result in every constructible Config; prefix preference is additive, non-negative and bounded; the DP cell recurrence; no bonus data cached from a reassignable configuration; exact character equality. Optimality itself is not decided.", "§3 C04 Also: the loop-carried prefix bonus decays on every path through a first-row column."),
- "C05": ("other", "affine forms of candidate windows, prefilter-arm agreement, per-path polynomial windows of exact/prefix/postfix with whitespace trimming, normalizer routing of every comparison in the exact/substring scanners",
-         "Decides: candidate windows are h-n+p, prefilter arms agree on (prefix searched, prefilter length, window), trimming and bounds of exact/prefix/postfix on every decision path, every comparison with the needle is normalized, best-bonus arguments, every substring result is produced by the substring scanners, exact character equality. The relations themselves are not decided.", "§3 C05"),
+ "C05": ("other", "affine forms of candidate windows, prefilter-arm agreement, per-path polynomial windows of exact/prefix/postfix with whitespace trimming, normalizer routing of every comparison in the exact/substring scanners, completeness of the candidate finders (no non-overlapping literal search)",
+         "Decides: candidate windows are h-n+p, prefilter arms agree on (prefix searched, prefilter length, window), trimming and bounds of exact/prefix/postfix on every decision path, every comparison with the needle is normalized, best-bonus arguments, every substring result is produced by the substring scanners, exact character equality. The relations themselves are not decided.", "§3 C05 Also: no candidate iterator that skips overlapping occurrences (memmem::find_iter)."),
  "C06": ("other", "who-may-call + source sets for unchecked reads, ordered-list typestate, comparator as a decision function over the orderings of its documented keys, guard dominance, landing of every counted placeholder in the match list, stale-read rule on the match-list test in Worker::run",
          "Decides the clauses on which memory safety of reading a snapshot rests: unchecked item reads are fed only by indices that passed a checked lookup, in-flight list producers preserve order, placeholder accounting, the comparator equals the documented order on all consistent key orderings, snapshot-update guard, every snapshot field copied from one run, hand-written clone_from copies every field. Not the set equality under all interleavings.", "§3 C06 Also: nothing rewrites the match list between a test of its contents and the branch that depends on it."),
  "C08": ("other", "atomic op inventory, dominance of initialisation over publication, read gating, CAS shape",
@@ -30,8 +30,8 @@ CLAIMS = {
          "Decides the pairing discipline of the wake-up protocol and that the callback handed to worker and injectors is the user's (a wrapper must forward on every path), and that only tick_inner / restart / Drop cancel a run; one genuine defect (lost wake-up) is a recorded known finding. Not liveness over schedules.", "§3 C13 If the tick/tick_inner structure is gone the tick clauses are decided on the enumerated paths of the flattened tick; differences that no protocol rule classifies are INCONCLUSIVE."),
  "C14": ("other", "decision-table extraction of Atom::parse evaluated on a complete finite abstraction of its input; finite transducer of the escape loop vs the ASCII replace; decision table of the word splitter; iterator-pipeline twins of parse/reparse",
          "Decides: the marker grammar of Atom::parse (text, kind, negative, append_dollar for every input, via a witness domain that is complete for the bounded inspection depth); the word splitter's table; that the ASCII and the non-ASCII half of Atom::new_inner unescape identically (`\\ ` → space, other backslashes kept); parse/reparse run the same pipeline on every call (no return in front of it except on equality of the raw text); Pattern::new never reaches the marker parser; flag sources for smart case; is_upper_case / to_lower_case are the fold-table lookup. Smart-case/normalization decisions over all strings are not decided.", "§3 C14"),
- "C15": ("other", "dominance of config stores, exhaustive dispatch-table extraction, negation shape, sum/propagate CFG shape, stable sort callee; INCONCLUSIVE when the scoring is re-architected (no dispatch on the receiver's own kind)",
-         "Decides the compositional shape: per-atom config stores dominate every matcher call and are the only writes to the matcher's configuration; kind→function tables exhaustive and agreeing; negation; ?-propagation; total, position-preserving iteration over atoms / zipped columns; match_list drops an item only on the score's None; stable sort with Reverse(score).", "§3 C15"),
+ "C15": ("other", "dominance of config stores, exhaustive dispatch-table extraction, negation shape, sum/propagate CFG shape, stable sort callee; INCONCLUSIVE when the scoring is re-architected (no dispatch on the receiver's own kind), sources of a None result",
+         "Decides the compositional shape: per-atom config stores dominate every matcher call and are the only writes to the matcher's configuration; kind→function tables exhaustive and agreeing; negation; ?-propagation; total, position-preserving iteration over atoms / zipped columns; match_list drops an item only on the score's None; stable sort with Reverse(score).", "§3 C15 Also: a None result of the pattern scorers is always an inner None verdict."),
  "C16": ("proof", "table algebra over const-evaluated tables for all 1,112,064 scalars x 4 configurations + dispatch extraction from decision paths + fold-lookup semantics (found / not found)",
          "Exhaustive over a finite domain: the four tables are read from the compiler's const evaluator, the dispatch intervals and the fold lookup from MIR decision paths; sortedness, idempotence, ASCII fixed points, block confinement, NFKD and simple-case-folding oracles are checked for every scalar; every haystack-character comparison in the matcher is routed through the one normalizer.", "§3 C16"),
  "C17": ("other", "who-may-call + control dependence of constructors on has_ascii_graphemes, accessor sibling agreement",
